@@ -165,6 +165,59 @@ def inject_sur(rng, v, top=True):
     return v
 
 
+# text that looks like a format's own syntax (comments, markup, entities, document markers, flow collections, quotes,
+# escapes, format directives, typed-scalar look-alikes).  In-domain for every format as a VALUE (all XML characters, no
+# CR); as a KEY for json / yaml / pickle / bson (XML keys must be names).  Measured: the unchanged formats round-trip all.
+SYN_TOKENS = ["//", "// c", "/* c */", "/*", "#", "# c", "#!", "<!-- c -->", "<!--", "-->", "<![CDATA[x]]>", "<![CDATA[", "]]>",
+              "&amp;", "&amp;amp;", "&lt;", "&gt;b", "&#38;", "&#x26;lt;", "&quot;", "&nbsp;", "&", "&a", "*a", "---", "--- x", "...",
+              ": ", "a: b", ":", "- ", "- a", "-", "? ", "? a", "{}", "[]", "{a: 1}", "[1, 2]", "{\"a\": 1}", "\"", "'", "\"q\"", "'q'",
+              "\\", "\\\\", "\\n", "\\t", "\\u0000", "\\x00", "\\ud800", "\\/", "%", "%s", "%d", "%(a)s", "%%", "{0}", "${x}",
+              "null", "Null", "NULL", "true", "True", "false", "~", "yes", "on", "1e3", "0x10", "0o7", "1_000", "1.", ".5", "+1",
+              "!!str x", "!a", "|", ">", "|-", "@", "`", ",", "=", "<<", "<a>", "</a>", "<a/>", "<a type=\"int\">1</a>", "<?xml?>",
+              "<?xml version=\"1.0\"?>", "<!DOCTYPE x>", "\t", "\n", " ", "  "]
+
+
+def placements(t):
+    """the token alone, with leading / trailing white space, after white space, at a line start inside the string"""
+    return [t, " " + t, t + " ", "x " + t, "x " + t + " y", "x\n" + t, "x\n" + t + " y\nz", "\t" + t, "x\n " + t, t + "\n"]
+
+
+def rsyn(rng):
+    t = rng.choice(SYN_TOKENS)
+    r = rng.random()
+    if r < 0.7:
+        return rng.choice(placements(t))
+    return rng.choice(["", "a", "1 ", "\n", "k: "]) + t + rng.choice([" ", "\n", ""]) + rng.choice(SYN_TOKENS) + rng.choice(["", " z", "\n"])
+
+
+def inject_syn(rng, v, keys):
+    """copy of v with syntax-like text put in value and list-item positions, and in key positions when `keys`"""
+    if isinstance(v, str):
+        return rsyn(rng) if rng.random() < 0.6 else v
+    if isinstance(v, list):
+        out = [inject_syn(rng, x, keys) for x in v]
+        if rng.random() < 0.4:
+            out.append(rsyn(rng))
+        return out
+    if isinstance(v, dict):
+        out = {}
+        for k, x in v.items():
+            out[rsyn(rng) if keys and rng.random() < 0.3 else k] = inject_syn(rng, x, keys)
+        if rng.random() < 0.5:
+            out[rsyn(rng) if keys else rng.choice(KEYS)] = rng.choice([rsyn(rng), [rsyn(rng)], {"k": rsyn(rng)}])
+        return out
+    return v
+
+
+import re as _re
+_NAME = _re.compile(r"^[A-Za-z_][A-Za-z0-9_.-]*$")
+
+
+def xml_keys_ok(tree):
+    """all keys are names the XML parser accepts (the conservative set the generator uses)"""
+    return all(k in KEYS or _NAME.match(k) for v in walk(tree) if isinstance(v, dict) for k in v)
+
+
 # ---------------------------------------------------------------------------------------------
 # helpers on trees
 # ---------------------------------------------------------------------------------------------
@@ -392,9 +445,9 @@ def cases_for_tree(tree, tid, rng, full):
         combos = [combos[0], combos[1], combos[3], combos[4], rng.choice(combos[5:7])] + combos[8:]
     for name, opts in combos:
         out.append({"kind": "wrap", "fmt": name, "dopts": opts, "lopts": opts, "tree": tree, "tid": tid})
-    if sur:
-        return out                       # outside the domain of bson and xml (measured): see PROBES
-    tags = ["config", rng.choice(["cfg", "root", "item", "x-1", "é"] + keys)]
+    if sur or not xml_keys_ok(tree):
+        return out                       # outside the domain of (bson and) xml (measured): see PROBES
+    tags = ["config", rng.choice(["cfg", "root", "item", "x-1", "é"] + [k for k in keys if k in KEYS or _NAME.match(k)])]
     for tag in (tags if full else [rng.choice(tags)]):
         out.append({"kind": "xml", "dump_tag": tag, "load_tag": tag, "tree": tree, "tid": tid})
     return out
@@ -467,6 +520,18 @@ def generate(rng, tier):
     for t in matrix_trees():
         cases += cases_for_tree(t, tid, mrng, True)
         tid += 1
+    # every syntax-like token x every format x value / list item / nested value / key, in all placements
+    for tok in SYN_TOKENS:
+        pl = placements(tok)
+        cases += cases_for_tree({"a": pl[0], "l": [pl[1], pl[3], pl[5]], "d": {"k": pl[4], "m": [pl[6]]}, "b": pl[2], "c": pl[7],
+                                 "e": [pl[8], pl[9]]}, tid, mrng, False)
+        tid += 1
+        kt = {}
+        for i, q in enumerate(pl):
+            if q != "":
+                kt[q] = [i, None, {pl[(i + 3) % len(pl)]: pl[(i + 5) % len(pl)]}][i % 3]
+        cases += cases_for_tree(kt, tid, mrng, False)
+        tid += 1
     # wrong root tags; mismatched YAML root keys (correspondence of the `in tree` test)
     for t in [{}, {"a": 1}, {"config": {"a": 1}}]:
         for dt, lt in [("config", "cfg"), ("cfg", "config"), ("config", "Config"), ("a", "b"), ("config", "config "), ("x", "")]:
@@ -512,6 +577,10 @@ def generate(rng, tier):
         tid += 1
     for _ in range(60 if quick else 2500):
         t = inject_sur(rng, rtree(rng, big=rng.random() < 0.2))
+        cases += cases_for_tree(t, tid, rng, False)
+        tid += 1
+    for i in range(140 if quick else 5000):
+        t = inject_syn(rng, rtree(rng, big=rng.random() < 0.1), keys=(i % 3 == 0))
         cases += cases_for_tree(t, tid, rng, False)
         tid += 1
     # the XML codec is the only one written in the repository: more trees for it alone
@@ -783,6 +852,8 @@ def kinds(tree):
         elif isinstance(v, str):
             if any(is_sur(ch) for ch in v):
                 s.add("str_lone_surrogate")
+            if any(t in v for t in ("//", "/*", "#", "<!--", "]]>", "&amp;", "&lt;", "---", "...", ": ", "- ", "%", "\\")):
+                s.add("str_syntax_like")
             s.add("emptystr" if v == "" else "str_markup" if any(ch in v for ch in "<>&\"'") else
                   "str_space" if v.strip() != v else "str_nonbmp" if any(ord(ch) > 0xFFFF for ch in v) else
                   "str_wordlike" if v.lower() in ("1", "0", "true", "false", "null", "none", "yes", "no", "on", "off", "~", "nan", "inf") else "str")
@@ -792,6 +863,8 @@ def kinds(tree):
             s.add("emptymap" if not v else "map")
             if any(isinstance(k, str) and any(is_sur(ch) for ch in k) for k in v):
                 s.add("key_lone_surrogate")
+            if any(isinstance(k, str) and not (k in KEYS or _NAME.match(k)) and not any(is_sur(ch) for ch in k) for k in v):
+                s.add("key_syntax_like")
     return s
 
 
